@@ -73,7 +73,9 @@ OS_FS_DESTR = {"remove", "unlink", "rename", "renames", "replace", "rmdir", "rem
 METHOD_FS_CREATE = {"write_text", "write_bytes", "touch"}
 METHOD_FS_DESTR = {"unlink", "rmtree", "rmdir", "symlink_to", "hardlink_to", "link_to"}
 OPEN_FUNCS = {"open", "io.open", "codecs.open", "os.fdopen", "gzip.open", "bz2.open", "lzma.open", "tokenize.open"}
-IMPORT_FUNCS = {"__import__", "importlib.import_module", "importlib.__import__", "importlib.reload", "pkgutil.get_loader", "pkgutil.find_loader",
+# importlib.util.find_spec("a.b") imports (executes) the parent package `a`: a dynamic import for a computed name
+IMPORT_FUNCS = {"__import__", "importlib.import_module", "importlib.__import__", "importlib.reload", "importlib.util.find_spec", "importlib.find_loader",
+                "pkgutil.resolve_name", "pkgutil.get_loader", "pkgutil.find_loader",
                 "pkgutil.walk_packages", "pkgutil.iter_modules"}
 IMPORT_UNSAFE = {"importlib.util.spec_from_file_location", "importlib.util.module_from_spec", "importlib.machinery.SourceFileLoader",
                  "importlib.machinery.SourcelessFileLoader", "importlib.machinery.ExtensionFileLoader", "zipimport.zipimporter"}
